@@ -24,6 +24,14 @@ SmallInitials == {<<>>, <<0>>, <<2>>, <<1, 2>>, <<2, 2>>, <<2, 1, 2>>, <<0, 2>>}
 SmallMins == {0}
 SmallGetInitials == {<<1, 2>>, <<2, 2>>, <<0, 2>>}
 
+\* distance functions with ties (a key shorter than the peer ids), used for get / put besides the identity
+TieDists4 == {<<1, 1, 2, 2>>}
+TieDists5 == {<<1, 1, 2, 2, 3>>}
+\* the tie part of the exhaustive small case family: nodes 0 and 1 tie, node 2 is farther
+SmallTieDist == <<1, 1, 2>>
+SmallTieInitials == {<<0, 1, 0>>, <<1, 0, 1>>, <<2>>, <<0, 0, 1>>}
+NoDists == {}
+
 AllOps == {"findnode", "join", "get", "put"}
 MinsAll == {0, 1, 3}
 =============================================================================
